@@ -29,8 +29,8 @@ Qed.
 (* the frames concatenate to [results]: every consumer of the stream sees the Invoke answer *)
 Lemma frames_exact : forall ids em results,
   concat_pos ids em = Ok (map Some results) ->
-  tout_results (TFrames ids em) = Ok results
-  /\ forall i, tout_direct i (TFrames ids em) = nth_error results i.
+  tout_results (TFrames ids em None) = Ok results
+  /\ forall i, tout_direct i (TFrames ids em None) = Ok (nth_error results i).
 Proof.
   intros ids em results H. split.
   - simpl. rewrite H. rewrite all_some_map_Some. reflexivity.
@@ -95,7 +95,7 @@ Section Bridge.
 
   Definition node_tn (calls : list call) : res (list tmsg) :=
     in_graph (tools_invoke kind_of inv str handler (pi_of calls) true calls).
-  Definition node_tns (calls : list call) : res (list string * list emitted) :=
+  Definition node_tns (calls : list call) : res (list string * list emitted * option N) :=
     tools_stream_frames kind_of inv str handler (pi_of' calls) sched_of calls.
 
   (* every call of the round is answered by a tool (or the unknown-tool handler) whose stream has at
@@ -142,9 +142,7 @@ Section Bridge.
     rewrite Hmap in Hcat.
     destruct (frames_exact _ _ _ Hcat) as [Hres Hdir].
     repeat split; auto.
-    unfold node_tns, tools_stream_frames. rewrite Ho. simpl.
-    destruct (merge_run (sched_of (stream_srcs ss)) (stream_srcs ss)) as [em fin]. simpl in *.
-    rewrite Hnone. reflexivity.
+    unfold node_tns, tools_stream_frames. rewrite Ho. simpl. rewrite Hnone. reflexivity.
   Qed.
 End Bridge.
 
@@ -156,7 +154,7 @@ Proof. exact seq_sched_complete. Qed.
 (* ---- a run depends on the tools node only through its answers ------------------------------ *)
 Section Ext.
   Variable tn tn' : list call -> res (list tmsg).
-  Variable tns tns' : list call -> res (list string * list emitted).
+  Variable tns tns' : list call -> res (list string * list emitted * option N).
   Variable rd : string -> bool.
   Variable rd_nonempty : bool.
   Variable modifier : list msg -> list msg.
@@ -171,7 +169,7 @@ Section Ext.
     = agent_loop tn' tns' rd rd_nonempty modifier visible checker md fuel script t s.
   Proof.
     intros md. induction fuel as [|fuel IH]; intros script t s; [reflexivity|].
-    destruct t as [input|m|o]; simpl.
+    destruct t as [[input| |]|m|o]; simpl; try reflexivity.
     - f_equal. destruct script as [|[|content calls chunks] script']; try reflexivity.
       destruct (delivered md content calls chunks); [|reflexivity]. f_equal.
       destruct (checker _); [apply IH|reflexivity].
@@ -179,9 +177,8 @@ Section Ext.
       assert (Ho : tools_out tn tns md (m_calls m) = tools_out tn' tns' md (m_calls m)).
       { unfold tools_out. destruct md; [rewrite Htn|rewrite Htns]; reflexivity. }
       rewrite Ho. destruct (tools_out tn' tns' md (m_calls m)) as [o| |]; try reflexivity.
-      destruct (tout_results o) as [results| |]; try reflexivity. f_equal.
+      f_equal.
       destruct rd_nonempty; [destruct (rd_call_index rd (m_calls m))|]; apply IH.
-    - reflexivity.
   Qed.
 
   Theorem agent_run_ext : forall md max_steps script input,
@@ -221,7 +218,7 @@ Definition v0_rd (n : string) : bool := String.eqb n "calc".
 Definition v0_calls (id : string) : list call := [mkCall id "search" "a"; mkCall id "calc" "b"].
 Definition v0_whole (id : string) : tout := TWhole [("search(a)", id); ("calc(b)", id)].
 Definition v0_frames (id : string) : tout :=
-  TFrames [id; id] [(0, "search("); (1, "calc("); (0, "a)"); (1, "b)")]%nat.
+  TFrames [id; id] [(0, "search("); (1, "calc("); (0, "a)"); (1, "b)")]%nat None.
 
 Lemma return_directly_by_id_wrong :
   direct_answer_v0 v0_rd (v0_calls "x") (v0_whole "x") = Some (Some ("search(a)", "x"))
